@@ -120,7 +120,8 @@ def main(argv=None):
             sr = FunctionRun(pack, Contract_stub(fn.__name__), rlimit=rlimit)
             sr.sha, sr.paths, sr.completed_paths, sr.canary_ok = "ast", 1, 1, True
             for name, ok, detail in fn(pack):
-                sr.results.append(ObligationResult(name, "discharged" if ok else "failed", "ast", 0.0, model={"table": detail}, path=[], detail=detail))
+                # ok: True discharged / False failed / None not decidable by reading (-> UNDECIDED)
+                sr.results.append(ObligationResult(name, "unknown" if ok is None else ("discharged" if ok else "failed"), "ast", 0.0, model={"table": detail}, path=[], detail=detail))
             runs.append((pack, sr.contract, sr))
         for s in pack.assumptions:
             if s not in assumptions:
